@@ -160,7 +160,7 @@ TAILMUT = [
 ]
 for (gf, gs, gt) in GEOMS:
     quick = (gf, gs, gt) in ((4, 8, 8), (4, 8, 9), (4, 9, 9))     # 4_9_9 is the smallest geometry that takes the second reallocation
-    U(id="fib.funcframe_tail.g%d_%d_%d" % (gf, gs, gt), props=["C05", "C02", "C10"], **{"class": "bounded"}, tier="quick" if quick else "thorough", mem_gb=6,
+    U(id="fib.funcframe_tail.g%d_%d_%d" % (gf, gs, gt), props=["C05", "C02", "C10", "C01"], **{"class": "bounded"}, tier="quick" if quick else "thorough", mem_gb=6,
       bound="stack block of at most 10 slots with the current frame at %d and the arguments at %d..%d (one unit per stack geometry; all 10 geometries that fit 10 slots are generated), callee slot count at most 5; loops unwound with unwinding assertions; realloc modelled faithfully (old block freed)" % (gf, gs, gt),
       clause=TAILCLAUSE + " - including calls that regrow the stack for the rest slot", src=["fiber.c"], link=["wrap.c"], link_keep={"wrap.c": ["janet_nanbox_from_bits"]}, harness=["fib_frame_tail.c"], entry="h_funcframe_tail_b", mode="plain",
       defines=["-DFIB_CAP=10", "-DFIB_FRAME=%d" % gf, "-DFIB_SS=%d" % gs, "-DFIB_TOP=%d" % gt],
